@@ -124,5 +124,32 @@ def pubkey_auth_case():
                 {"declared x used": "all 9 RSA pairs", "disabled": "every subset of the RSA names"})
 
 
+def declared_algorithm_case():
+    """server side, before any signature is looked at: a declared public-key algorithm (plain or certificate form) is
+    accepted for key loading exactly when its base algorithm is one this server has enabled"""
+    def fn(ctx):
+        from paramiko.transport import Transport
+        from paramiko.auth_handler import AuthHandler
+        plain = list(Transport._preferred_pubkeys)
+        names = plain + [n + "-cert-v01@openssh.com" for n in plain] + ["ssh-dss", "x-unknown", "x-unknown-cert-v01@openssh.com"]
+        declared = ctx.choice("declared-algorithm", names)
+        off = ctx.choice("disabled-on-this-server", [None] + plain)
+        also = ctx.choice("also-disabled", [None, "ssh-rsa", "rsa-sha2-512"])
+        disabled = [n for n in (off, also) if n]
+        t = L.make_transport(True, L.Script([]), L.make_server_interface([]))
+        t.disabled_algorithms = {"pubkeys": disabled}
+        loaded = []
+        t._key_info = {n: (lambda msg, n=n: loaded.append(n) or ("key", n)) for n in names}
+        ah = AuthHandler(t)
+        got = ah._generate_key_from_request(declared, b"blob")
+        base = declared.replace("-cert-v01@openssh.com", "")
+        enabled = base in plain and base not in disabled
+        ctx.prove((got is not None) == enabled, "declared-algorithm-accepted-exactly-when-its-base-algorithm-is-enabled")
+        ctx.prove(loaded == ([declared] if enabled else []), "key-loaded-with-the-declared-algorithm's-loader-only-when-accepted")
+    return Case("server-declared-algorithm", fn, ["declared-algorithm-accepted-exactly-when-its-base-algorithm-is-enabled"],
+                {"declared": "every preferred public-key algorithm in plain and certificate form, ssh-dss, an unknown name",
+                 "disabled": "none / any one algorithm, optionally plus ssh-rsa or rsa-sha2-512"})
+
+
 def cases(tier):
-    return [hostkey_case(), pubkey_auth_case()]
+    return [hostkey_case(), pubkey_auth_case(), declared_algorithm_case()]
